@@ -60,6 +60,18 @@ def tested_ops(n, fresh, cont, full):
     for j in sorted(set([0, n // 2, n])):
         for ln in counts:
             out.append(['insr:%d:%s' % (j, ','.join(str(fresh()) for _ in range(ln)))])
+    for j in sorted(set([0, n // 2, n])):
+        for ln in counts:
+            out.append(['insi:%d:%s' % (j, ','.join(str(fresh()) for _ in range(ln)))])
+    for c in sorted(set([0, 1, n])):
+        if c <= n:
+            out.append(['rb:%d' % c])
+    out.append(['clr:0'])
+    if cont != 'vec':
+        out.append(['clr:1'])
+    else:
+        for ln in sorted(set([0, 1, n, n + 3, 2 * n + 9])):
+            out.append(['asgr:%s' % ','.join(str(fresh()) for _ in range(ln))])
     for j in pos:
         for c in range(0, n - j + 1):
             if full or c in (0, 1, 2, n - j):
@@ -81,7 +93,7 @@ def tested_ops(n, fresh, cont, full):
 def random_script(r, cont, length, fresh):
     ops = []; n = 0; moved = None
     for _ in range(length):
-        t = r.below(16)
+        t = r.below(19)
         ref = n > 0 and r.chance(2, 3)
         arg = lambda: ('r:%d' % r.below(n)) if ref else ('v:%d' % fresh())
         if t <= 2:
@@ -116,9 +128,20 @@ def random_script(r, cont, length, fresh):
             ops.append('rs:%d' % r.below(2 * n + 8))
         elif t == 14:
             ops.append('sh:-' if (cont == 'vec' or r.chance(1, 2)) else 'sh:%d' % r.below(n + 4))
-        else:
+        elif t == 15:
             if cont == 'vec' and n > 0:
                 m = r.below(n + 4); ops.append('asg:%d:%s' % (m, arg())); n = m
+            else:
+                ops.append('ab:' + arg()); n += 1
+        elif t == 16:
+            j = r.below(n + 1); ln = r.choice([0, 1, 2, 3]); ops.append('insi:%d:%s' % (j, ','.join(str(fresh()) for _ in range(ln)))); n += ln
+        elif t == 17:
+            c = r.below(min(n, 3) + 1); ops.append('rb:%d' % c); n -= c
+        else:
+            if r.chance(1, 3):
+                ops.append('clr:%d' % (0 if cont == 'vec' else r.below(2))); n = 0
+            elif cont == 'vec':
+                ln = r.below(6); ops.append('asgr:%s' % ','.join(str(fresh()) for _ in range(ln))); n = ln
             else:
                 ops.append('ab:' + arg()); n += 1
         if n > 40:
@@ -193,7 +216,7 @@ def oracle_line(ctx, case, out):
             o = op.split(':')[0]
             if o == 'rs':
                 reserved = (int(op.split(':')[1]), int(al))
-            elif o in ('sh', 'asg'):
+            elif o in ('sh', 'asg', 'asgr', 'clr'):
                 reserved = None
             elif reserved is not None:
                 if cnt > reserved[0]:
@@ -313,5 +336,6 @@ RULE = ('scripts = for every container config (Array, ArrayIntCap<1,4,16>, Array
         'logInitialItemCount, stdish::vector, vector_intcap<4>) x element kind (pod, nothrow-move heap-owning, copy-only, self-move-hostile, '
         'long std::string) x initial length n x capacity state (grown/full/one free/reserved): EVERY op with the value argument aliasing every '
         'index (AddBack, AddBack&&, Insert n copies with n in {0,1,2,len}, Insert one, Insert&&, SetCount, assign), ranges of length 0,1,2,n at '
-        'begin/middle/end, Remove(index,count) for all index/count incl. 0, Remove(filter), Reserve/Shrink; + random 30-op histories; '
+        'begin/middle/end (forward AND input iterators), Remove(index,count) for all index/count incl. 0, Remove(filter), RemoveBack, Clear, '
+        'assign(range), Reserve/Shrink; + random 30-op histories; '
         '+ GrowCapacity boundary grid.  distinct = distinct script line; non-trivial = script with an aliased argument or an empty range')
